@@ -1,1 +1,60 @@
 // harnesses for src/lock.rs (child module: sees private items of its parent)
+#![allow(unused_imports, static_mut_refs, clippy::all, clippy::pedantic)]
+use super::*;
+use crate::verif_env::*;
+use std::os::fd::FromRawFd;
+
+#[path = "/verif/harness/playback/lock.rs"]
+mod playback;
+
+// C19 (single-file guarantee): the handle-opening helpers used by Memvid::open,
+// open_read_only and the lock probes must never ask the OS to create or truncate a file:
+// only Memvid::create may bring a file into existence. OpenOptions is observed through
+// ghosts of its builder methods (its fields are private); `open` itself is a ghost that
+// either fails (missing path) or hands out a descriptor.
+static mut ASKED_CREATE: bool = false;
+static mut ASKED_TRUNCATE: bool = false;
+static mut ASKED_APPEND: bool = false;
+static mut OPEN_CALLS: u8 = 0;
+static mut OPEN_FAILS: bool = false;
+fn g_create(o: &mut OpenOptions, v: bool) -> &mut OpenOptions { if v { unsafe { ASKED_CREATE = true; } } o }
+fn g_create_new(o: &mut OpenOptions, v: bool) -> &mut OpenOptions { if v { unsafe { ASKED_CREATE = true; } } o }
+fn g_truncate(o: &mut OpenOptions, v: bool) -> &mut OpenOptions { if v { unsafe { ASKED_TRUNCATE = true; } } o }
+fn g_append(o: &mut OpenOptions, v: bool) -> &mut OpenOptions { if v { unsafe { ASKED_APPEND = true; } } o }
+fn g_open<P: AsRef<Path>>(_o: &OpenOptions, _p: P) -> std::io::Result<File> {
+    unsafe {
+        OPEN_CALLS += 1;
+        if OPEN_FAILS { return Err(std::io::Error::from_raw_os_error(2)); }
+        Ok(File::from_raw_fd(7))
+    }
+}
+fn g_acquire(file: &File, mode: LockMode) -> Result<FileLock> {
+    Ok(FileLock { file: unsafe { File::from_raw_fd(8) }, mode })
+}
+fn g_try_lock(_f: &File) -> std::io::Result<()> { Ok(()) }
+fn g_fd_drop(_fd: &mut std::os::fd::OwnedFd) {}
+
+verif_proof! { [C19]
+    #[kani::unwind(3)]
+    #[kani::stub(std::fs::OpenOptions::create, g_create)]
+    #[kani::stub(std::fs::OpenOptions::create_new, g_create_new)]
+    #[kani::stub(std::fs::OpenOptions::truncate, g_truncate)]
+    #[kani::stub(std::fs::OpenOptions::append, g_append)]
+    #[kani::stub(std::fs::OpenOptions::open, g_open)]
+    #[kani::stub(FileLock::acquire_with_mode, g_acquire)]
+    #[kani::stub(<std::os::fd::OwnedFd as core::ops::Drop>::drop, g_fd_drop)]
+    fn c19_open_helpers_never_create() {
+        let which: u8 = kani::any();
+        kani::assume(which < 2);
+        unsafe { ASKED_CREATE = false; ASKED_TRUNCATE = false; ASKED_APPEND = false; OPEN_CALLS = 0; OPEN_FAILS = kani::any(); }
+        let p = Path::new("m.mv2");
+        let r = if which == 0 { FileLock::open_and_lock(p) } else { FileLock::open_read_only(p) };
+        assert!(unsafe { OPEN_CALLS } == 1, "[C19] handle helper opened the path more than once or not at all");
+        assert!(!unsafe { ASKED_CREATE }, "[C19] opening an existing memory asks the OS to create the file: a failed or mistyped open leaves a stray file behind");
+        assert!(!unsafe { ASKED_TRUNCATE } && !unsafe { ASKED_APPEND }, "[C19] opening an existing memory asks for truncation/append");
+        assert!(r.is_ok() != unsafe { OPEN_FAILS }, "[C19] handle helper did not report the failed open");
+        kani::cover!(r.is_ok(), "opened");
+        kani::cover!(r.is_err(), "missing path reported");
+        leak(r);
+    }
+}
